@@ -82,22 +82,30 @@ func RunInspections(layout Layout, runDir string, lineNormalization bool, useDSS
 	return inspectionMetadata, nil
 }
 
-// cleanArtifactPaths moves every artifact whose name is not a clean path to
-// its clean name. The names are handled in sorted order: when several of them
-// clean to the same name, the outcome must not depend on the iteration order
-// of the map.
-func cleanArtifactPaths(artifacts map[string]HashObj) {
+// cleanArtifactPaths returns a copy of the passed artifacts in which every
+// artifact whose name is not a clean path is filed under its clean name. The
+// names are handled in sorted order: when several of them clean to the same
+// name, the outcome must not depend on the iteration order of the map. The
+// passed map is left as it is: the links that are verified, and the summary
+// link made from them, keep the names that were recorded.
+func cleanArtifactPaths(artifacts map[string]HashObj) map[string]HashObj {
+	if artifacts == nil {
+		return nil
+	}
+	cleaned := make(map[string]HashObj, len(artifacts))
 	var unclean []string
-	for k := range artifacts {
+	for k, v := range artifacts {
 		if path.Clean(k) != k {
 			unclean = append(unclean, k)
+		} else {
+			cleaned[k] = v
 		}
 	}
 	sort.Strings(unclean)
 	for _, k := range unclean {
-		artifacts[path.Clean(k)] = artifacts[k]
-		delete(artifacts, k)
+		cleaned[path.Clean(k)] = artifacts[k]
 	}
+	return cleaned
 }
 
 // verifyMatchRule is a helper function to process artifact rules of
@@ -133,8 +141,8 @@ func verifyMatchRule(ruleData map[string]string,
 	if ruleData["pattern"] != "" {
 		ruleData["pattern"] = path.Clean(ruleData["pattern"])
 	}
-	cleanArtifactPaths(srcArtifacts)
-	cleanArtifactPaths(dstArtifacts)
+	srcArtifacts = cleanArtifactPaths(srcArtifacts)
+	dstArtifacts = cleanArtifactPaths(dstArtifacts)
 
 	// Normalize optional source and destination prefixes, i.e. if
 	// there is a prefix, then add a trailing slash if not there yet
@@ -250,8 +258,8 @@ func VerifyArtifacts(items []interface{},
 		// The artifact queues below hold clean paths; look-ups by those names
 		// (e.g. to tell which artifacts were modified) need clean names in the
 		// maps as well.
-		cleanArtifactPaths(materials)
-		cleanArtifactPaths(products)
+		materials = cleanArtifactPaths(materials)
+		products = cleanArtifactPaths(products)
 
 		// All other rules only require the material or product paths (without
 		// hashes). We extract them from the corresponding maps and store them as
